@@ -247,7 +247,9 @@ class Check:
         self.transitions += res.generated
         return res
 
-    def tlc_shards(self, spec, cfg_for_shard, nshards, what, **kw):
+    def tlc_shards(self, spec, cfg_for_shard, nshards, what, same_space=False, **kw):
+        """same_space: every shard explores the whole state space and only the emission is
+        sharded (states are then counted once, not per shard)."""
         kw.setdefault("workdir", self.tmp)
         kw.setdefault("seed", self.seed)
         rs = run_tlc_shards(spec, cfg_for_shard, nshards, **kw)
@@ -260,6 +262,9 @@ class Check:
             gen += r.generated
             dist += r.distinct
             out.extend(r.emitted)
+        if same_space:
+            gen = max(r.generated for r in rs)
+            dist = max(r.distinct for r in rs)
         self.tlc_runs.append({"what": what, "spec": spec, "generated": gen, "distinct": dist,
                               "shards": nshards, "wall_s": round(max(r.wall for r in rs), 2)})
         self.states += dist
